@@ -490,6 +490,15 @@ def check_neuron_tables(ctx, d, s, use_driver):
         try:
             ni = arr.add_neuron_input()
             no = arr.add_neuron_output()
+            if (d + s + npd) % 2 == 0:
+                # asking again hands back the same nodes and wires nothing a second time
+                import warnings as _w
+                with _w.catch_warnings():
+                    _w.simplefilter("ignore")
+                    ni2, no2 = arr.add_neuron_input(), arr.add_neuron_output()
+                if ni2 is not ni or no2 is not no:
+                    ctx.fail(dict(case, history="requested twice"), "another node", "the node created by the first request",
+                             where="neuron-slices")
         except Exception as e:
             ctx.fail(case, f"{type(e).__name__}: {e}"[:200], "neuron input/output exist for every split",
                      where="neuron-defined")
